@@ -264,11 +264,26 @@ def maxPrec (a b : FArg) : Nat := max a.prec b.prec
 -- ------------------------------------------------------------------------------------------------
 -- the documentation, operation by operation
 
-/-- result size of `x.pow(e)` for `|x| ≥ 2`, `e ≥ 2`: between `(L-1)·e + 1` and `L·e` bits -/
+/-- number of trailing zero bits of `n ≠ 0` -/
+def tz2Aux : Nat → Nat → Nat → Nat
+  | 0, _, acc => acc
+  | fuel + 1, n, acc => if n % 2 = 0 ∧ n ≠ 0 then tz2Aux fuel (n / 2) (acc + 1) else acc
+def tz2 (n : Nat) : Nat := tz2Aux (Nat.log2 n + 1) n 0
+
+/-- result size of `x.pow(e)` for `|x| ≥ 2`, `e ≥ 2`.  `pow` removes the factor `2^s` first, raises the odd part
+    (between `(L-1)·e + 1` and `L·e` bits, `L` its bit length) and shifts by `s·e`: the first allocation that cannot be
+    made is the one reported -/
 def powVerdict (W : Nat) (mag e : Nat) : Verdict :=
   if mag ≤ 1 ∨ e ≤ 1 then .returns
-  else if 2 ^ Nat.log2 mag = mag then alloc W (Nat.log2 mag * e + 1)      -- a power of two: exact
-  else allocRange W ((bitLen mag - 1) * e + 1) (bitLen mag * e)
+  else
+    let s := tz2 mag
+    let odd := mag >>> s
+    let L := bitLen odd
+    if odd = 1 then alloc W (s * e + 1)
+    else
+      match allocRange W ((L - 1) * e + 1) (L * e) with
+      | .returns => allocRange W ((L - 1) * e + 1 + s * e) (L * e + s * e)
+      | v => v
 
 def divZero (b : Int) : Verdict := firstOf [(b = 0, .divideByZero)]
 
@@ -393,7 +408,7 @@ def verdict (W : Nat) : Op → List Arg → Option Verdict
       else if ¬ (a.moderate ∧ b.moderate) then some .unspecified
       else if a.isInf ∨ b.isInf then some (.panics .infinite)
       else if maxPrec a b = 0 then some (.panics .unlimitedPrecision)
-      else if b.isZero then some .returns                    -- x^0 = 1 for every finite x
+      else if b.isZero ∨ (b.signif = 1 ∧ b.exp = 0) then some .returns   -- x^0 = 1, x^1 = x for every finite x
       else if a.isNeg then some (.panics .powNegativeBase)
       -- |x^y| can leave the exponent range only if |y·log2 x| ≥ 2^62; both factors are kept below 2^30
       else if a.magAtMostPow2 (2 ^ 30) ∧ b.magAtMostPow2 30 ∧ a.exp ≥ -(2 ^ 30) then some .returns
@@ -526,9 +541,16 @@ def verdict (W : Nat) : Op → List Arg → Option Verdict
       some .returns
   | .qFromF64, [.dec b] => if b < 0 ∨ b ≥ 2 ^ 64 then none else some .returns
   | .qInv, [.int n, .int d, .kind _] => if d ≤ 0 then none else some (divZero n)
-  | .qPow, [.int n, .int d, .kind _, .dec e] =>
+  | .qPow, [.int n, .int d, .kind c, .dec e] =>
       if d ≤ 0 ∨ e < 0 then none
-      else some (powVerdict W (max n.natAbs d.natAbs) e.toNat)
+      else
+        -- the value is stored reduced: `RBig` by the gcd, `Relaxed` by the common power of two (`reduce2`); 0 is 0/1
+        let g := if n = 0 then d.natAbs
+                 else if c = 'R' then Nat.gcd n.natAbs d.natAbs
+                 else 2 ^ min (tz2 n.natAbs) (tz2 d.natAbs)
+        some (match powVerdict W (n.natAbs / g) e.toNat with     -- numerator first, then denominator
+              | .returns => powVerdict W (d.natAbs / g) e.toNat
+              | v => v)
   | .qSqrCubic, [.int _, .int d, .kind _] | .qRounding, [.int _, .int d, .kind _]
   | .qToFloats, [.int _, .int d, .kind _] | .qSign, [.int _, .int d, .kind _] | .qFmt, [.int _, .int d, .kind _]
   | .qToIntTry, [.int _, .int d, .kind _] => if d ≤ 0 then none else some .returns
